@@ -102,6 +102,7 @@ def execute(st, ctx):
                 raise InjectedFault("inv%d" % serial)
             rec[3] = sim.seq
             rec[4] = "ok"
+            rec.append(tick())  # [6]: when the successful invocation ended
             return ("v", key, serial)
 
         except CANCEL:
@@ -139,6 +140,7 @@ def execute(st, ctx):
                 if any(in_flight.values()):
                     out.probes["discard_in_flight"] = 1
                 cached.cache_discard(*sc.args[key])
+                marks.setdefault("discards", {})[key] = tick()
             else:
                 cached.cache_info()
             for _ in range(pause):
@@ -178,7 +180,7 @@ def execute(st, ctx):
             if t.error is not None and t.error is not t.cancelled_with:
                 out.violate("C11.task_failed", sig + (type(t.error).__name__,), dict(describe(), error=repr(t.error)))
         ok_values = {}
-        for serial, key, s0, s1, status, _t in invs:
+        for serial, key, s0, s1, status, _t in [r[:6] for r in invs]:
             if status == "ok":
                 ok_values[("v", key, serial)] = s1
         for ti, key, c0, c1, status, value, _t in calls:
@@ -230,14 +232,25 @@ def execute(st, ctx):
         if sim2_task.error is not None or not sim2_task.done:
             out.violate("C11.cache_unusable_after_quiescence", sig, dict(describe(), error=repr(sim2_task.error)))
         else:
-            for serial, key, s0, s1, status, _t in invs:
+            for serial, key, s0, s1, status, _t in [r[:6] for r in invs]:
                 if status == "ok":
                     ok_values[("v", key, serial)] = s1
             stored_ok = sorted({r[1] for r in invs[:n_before_post] if r[4] == "ok"})
+            # an unbounded cache never evicts: a key computed successfully after the last clear and after its last
+            # discard is still there at quiescence
+            must_have = set()
+            if sc.maxsize is None:
+                for r in invs[:n_before_post]:
+                    if r[4] == "ok" and len(r) > 6 and r[6] > lc and r[6] > marks.get("discards", {}).get(r[1], -1):
+                        must_have.add(r[1])
+                if len(must_have) > info0[3]:
+                    out.violate("C11.completed_call_not_stored", sig,
+                                dict(describe(), computed_and_never_removed=sorted(must_have), info_at_quiescence=info0))
             cap = sc.maxsize
             states = set()
             for perm in _arrangements(stored_ok, info0[3]):
-                states.add(perm)
+                if must_have <= set(perm):
+                    states.add(perm)
             hits, misses = info0[0], info0[1]
             for step, (what, key, v, ninv, info2) in enumerate(post):
                 nxt = set()
